@@ -8,7 +8,7 @@
    PARTIAL: "two nodes become peers exactly when each trusts the other" has a liveness direction
    (trust => they do become peers) that is decided by the executed correspondence over all trust
    relations (py/props/c01.py), not by a theorem. *)
-From VpnModel Require Import Base Core Conn PeerCrypto Node NodeProofs InitProofs TrustProofs.
+From VpnModel Require Import Base Core Conn PeerCrypto Table Node NodeProofs InitProofs TrustProofs NextHopProofs PcInvariant AdmissionProofs.
 
 (* a message signed with a key outside the trusted list: rejected, state untouched, no reply *)
 Theorem C01_untrusted_signer_rejected : forall ok s m, existsb (N.eqb (im_signer m)) (i_trusted s) = false ->
@@ -47,9 +47,27 @@ Theorem C01_unverifiable_sequence : forall salts now l n, Forall (fun x => unver
   same_state n (fst (inject_all salts now n l)) /\ snd (inject_all salts now n l) = [].
 Proof. exact unverifiable_sequence. Qed.
 
+(* WHOLE RUNS: every peer a node has in any reachable state (any events, times, salts) was admitted by a handshake message that arrived from that very address and verified under a key of the node's trusted list (its own key if none is configured) - induction over arbitrary event sequences; only datagrams can make a peer (interface reads, housekeeping, dials never do), and every handshake object keeps the trusted list it was created with (invariant TI through PcInvariant.v) *)
+Theorem C01_every_peer_was_admitted : forall salts c t0 evs a,
+  ahas (n_peers (nrun salts (node_new c t0) evs)) a = true ->
+  exists now m, In (now, ENet a (WInit m)) evs /\ existsb (N.eqb (im_signer m)) (eff_trusted c) = true.
+Proof. exact every_peer_was_admitted. Qed.
+
+(* the object invariant behind it, for every reachable state: every connection / handshake object of the node carries exactly the configured trusted keys *)
+Theorem C01_objects_keep_trusted_list : forall c salts t0 evs,
+  let n := nrun salts (node_new c t0) evs in
+  n_cfg n = c /\
+  (forall a pc i, aget (n_pending n) a = Some pc -> pc_init pc = Some i -> i_trusted i = eff_trusted c) /\
+  (forall a pd i, aget (n_peers n) a = Some pd -> pc_init (p_crypto pd) = Some i -> i_trusted i = eff_trusted c).
+Proof. exact reachable_ti. Qed.
+
 (* non-vacuity: WBadInit is unverifiable; a fresh node with one pending handshake is all_encrypted *)
 Example C01_ex_unverifiable : unverifiable WBadInit /\ unverifiable (WData (DShort 3)) /\ unverifiable WEmpty.
 Proof. repeat split. Qed.
+
+(* the reachable example state of NextHopProofs has a peer (admitted by A's ping and peng): C01_every_peer_was_admitted is not vacuous *)
+Example C01_ex_peer : ahas (n_peers (nrun salts (node_new cB 1) ex_evs)) 1001 = true.
+Proof. exact (proj2 (proj2 ex_reachable_selects)). Qed.
 
 Print Assumptions C01_untrusted_signer_rejected.
 Print Assumptions C01_success_needs_trust.
@@ -58,3 +76,5 @@ Print Assumptions C01_peer_needs_trust.
 Print Assumptions C01_unverifiable_object.
 Print Assumptions C01_unverifiable_node.
 Print Assumptions C01_unverifiable_sequence.
+Print Assumptions C01_every_peer_was_admitted.
+Print Assumptions C01_objects_keep_trusted_list.
